@@ -1005,6 +1005,13 @@ class Engine:
             ghost = None
         for (name, c) in spec.inv(self, fr, ghost):
             self.assume(c)
+        # the assumed invariant may contradict the path (e.g. a search loop that cannot fall through): look harder
+        # than the usual quick feasibility check before going on
+        self.solver.set("timeout", 2000)
+        dead = self._check() == z3.unsat
+        self.solver.set("timeout", FEAS_TIMEOUT_MS)
+        if dead:
+            raise PathEnd("infeasible")
         if which == 1:
             if not is_for and not is_dict:
                 if self.decide(self.ev(st.test, fr)):
@@ -1054,7 +1061,8 @@ class Engine:
     def iter_elem(self, it, i):
         if isinstance(it, _Reversed):
             s = it.seq
-            n = as_int_term(ops.length(s))
+            from pyvc import lib as _lib
+            n = as_int_term(_lib._iter_len(self, s))
             return self.seq_index_nocheck(s, mk_int(n - 1 - i.t))
         if isinstance(it, _Enumerate):
             return (mk_int(i.t + as_int_term(it.start)), self.iter_elem(it.inner, i))
